@@ -727,6 +727,9 @@ func (in *Interp) prepareCall(fr *frame, call *ssa.CallCommon, ci *cinstr) (Val,
 		args = make([]Val, 0, len(call.Args))
 	} else {
 		recv := v.(Iface)
+		if rp, ok := recv.v.(RuntimePanic); ok && call.Method.Name() == "Error" {
+			return &NativeFunc{name: "runtime.Error.Error", fn: func(in *Interp, a []Val) Val { return ConcStr("runtime error: " + rp.msg) }}, nil
+		}
 		if recv.t == nil && in.initMode {
 			sig := call.Signature()
 			return &NativeFunc{name: "init-lenient", fn: func(in *Interp, a []Val) Val { return in.zeroResult(sig) }}, nil
@@ -758,6 +761,13 @@ func (in *Interp) prepareCall(fr *frame, call *ssa.CallCommon, ci *cinstr) (Val,
 func (in *Interp) invokeMethod(fr *frame, recv Iface, name string, args []Val) Val {
 	if recv.t == nil {
 		panic(in.runtimePanic("nil interface method call"))
+	}
+	if rp, ok := recv.v.(RuntimePanic); ok {
+		// the value of a recovered run-time panic (a runtime.Error)
+		if name == "Error" {
+			return ConcStr("runtime error: " + rp.msg)
+		}
+		panic(in.unsupported("method " + name + " on a recovered run-time error"))
 	}
 	ms := in.prog.MethodSets.MethodSet(recv.t)
 	for i := 0; i < ms.Len(); i++ {
